@@ -85,6 +85,46 @@ LIST_METHODS = {"append", "pop", "insert", "reverse", "index", "count", "extend"
 MATCH_METHODS = {"group", "start", "end", "groups", "groupdict", "span"}
 
 
+
+class HostSuper(Obj):
+    """`super()` inside an interpreted method of a host_subclass: the methods of the builtin base, bound to the instance"""
+
+    def __init__(self, base, obj):
+        Obj.__init__(self, {})
+        self.base, self.obj = base, obj
+
+    def get(self, ev, name):
+        f = getattr(self.base, name, None)
+        if f is None:
+            raise PyRaise("AttributeError", "'super' object has no attribute %r" % name)
+        obj = self.obj
+        return lambda *a, **k: f(obj, *a, **k)
+
+
+def host_subclass(ev, classdef, base, name=None):
+    """A host subclass of a builtin container (`dict`, `list`) for a class of the analysed program that derives from it: instances
+    behave like the builtin in every host operation (the evaluator's own `in`, subscripts, iteration) while every method the class
+    defines -- __init__, __setitem__, __call__, ordinary methods -- is interpreted from its source, with `super()` bound to the builtin."""
+    import ast as _ast
+    ns = {}
+    methods = {}
+
+    def make(fdef):
+        def method(self_, *a, **k):
+            cls = type(self_)
+            env0 = {"super": lambda *x: HostSuper(base, self_), "__class__": cls}
+            return ev.run_function(fdef, [self_] + list(a), k, env0)
+        method.__name__ = fdef.name
+        return method
+    for b in classdef.body:
+        if isinstance(b, _ast.FunctionDef):
+            if b.decorator_list:
+                raise Unsupported("decorated method %s of a %s subclass" % (b.name, base.__name__))
+            ns[b.name] = make(b)
+            methods[b.name] = b
+    ns["interp_methods"] = methods
+    return type(name or classdef.name, (base,), ns)
+
 class Evaluator:
     def __init__(self, globals_=None, max_steps=200000):
         self.g = dict(globals_ or {})
@@ -271,6 +311,12 @@ class Evaluator:
             v = self.ev(node.value, env)
             if isinstance(v, Obj):
                 return v.get(self, node.attr)
+            if hasattr(type(v), "interp_methods"):
+                # an instance of a dict/list subclass of the analysed program whose methods are interpreted (host_subclass)
+                if node.attr in v.__dict__:
+                    return v.__dict__[node.attr]
+                if node.attr in type(v).interp_methods:
+                    return getattr(v, node.attr)
             if isinstance(v, list) and node.attr in LIST_METHODS:
                 return getattr(v, node.attr)         # `append = items.append`
             if isinstance(v, str) and node.attr in STR_METHODS:
@@ -367,6 +413,11 @@ class Evaluator:
                 if callable(target):
                     return target(*args, **kw)
                 raise Unsupported("attribute %s of a record is not callable" % m)
+            if hasattr(type(recv), "interp_methods"):
+                if m in recv.__dict__ and callable(recv.__dict__[m]):
+                    return recv.__dict__[m](*args, **kw)
+                if m in type(recv).interp_methods:
+                    return getattr(recv, m)(*args, **kw)
             if isinstance(recv, str) and m in STR_METHODS:
                 try:
                     return getattr(recv, m)(*args, **kw)
@@ -538,6 +589,8 @@ class Evaluator:
                     base.set_attr(self, target.attr, value)      # records with a class (rules/one_roundtrip.py)
                 else:
                     base.fields[target.attr] = value
+            elif hasattr(type(base), "interp_methods"):
+                base.__dict__[target.attr] = value
             else:
                 raise Unsupported("assignment target")
         else:
